@@ -691,6 +691,74 @@ class World:
             return
         self.read_one(csvmod, lname, "rejected_write")
 
+    def op_disk_fault_write(self, csvmod):
+        """The disk fills up (file-size limit, hysim/faults.py) while a name is
+        written again: write_csv either raises - then nothing is concluded
+        about that name until it is written again - or returns, and then the
+        frame must read back.  The next clean write of the name must succeed
+        and read back, and every other name is still intact (checked by the
+        later reads and restarts)."""
+        import gc
+        from hysim.faults import file_size_limit
+        cs = self.cs
+        cands = [n for n in sorted(self.store)
+                 if self.store[n]["mode"] != "member"
+                 and not self.store[n].get("frozen")
+                 and not self.store[n].get("switched_from")]
+        if not cands:
+            return
+        lname = cands[cs.draw("which", len(cands))]
+        rec0 = self.store[lname]
+        mode = rec0["mode"]
+        limit = cs.choice("limit", [0, 1, 17, 64, 200, 512, 1500, 4096, 8192,
+                                    20000])
+        self.set_seams(csvmod)
+        if self.clock.year < 1980 or self.clock.year > 2107:
+            return
+        attempts = [limit, None] if cs.flip("recover", 75) else [limit]
+        for lim in attempts:
+            df, fm = gen_frame(cs, "df")
+            comment = gen_comment(cs, "dc")
+            fmt = cs.choice("fmt", FORMATS)
+            wsi = not cs.flip("no_sys_info", 30)
+            rec = {"mode": mode, "frame": fm, "comment": comment, "fmt": fmt,
+                   "defined": True, "dir": rec0["dir"], "path": rec0["path"]}
+            farg = self.path_arg(rec0["path"], "fn")
+            self.log.ev("disk_fault_write", lname, mode, lim, fm["cols"],
+                        fm["nrow"], comment, fmt, wsi)
+            failed = None
+            try:
+                if lim is None:
+                    csvmod.write_csv(df, farg, comment, self.script,
+                                     compress=(mode != "plain"),
+                                     float_format=fmt, write_sys_info=wsi)
+                else:
+                    with file_size_limit(lim):
+                        csvmod.write_csv(df, farg, comment, self.script,
+                                         compress=(mode != "plain"),
+                                         float_format=fmt, write_sys_info=wsi)
+            except Exception as e:
+                failed = repr(e)
+            gc.collect()   # handles the failed call leaked are finalised now
+            if failed is not None:
+                if lim is None:
+                    raise Violation("write_failed", f"write_csv of {lname} in "
+                                    f"mode {mode} after an earlier write of "
+                                    f"that name hit a full disk raised "
+                                    f"{failed}", "disk_fault_write")
+                self.ctx.hit("fault.disk_full_during_write")
+                self.log.ev("disk_fault_write.raised", lname)
+                rec0["defined"] = False
+                continue
+            if lim is not None:
+                self.ctx.hit("probe.disk_limit_not_reached")
+            else:
+                self.ctx.hit("probe.clean_write_after_disk_fault")
+            self.store[lname] = rec
+            rec0 = rec
+            self.wrote = True
+            self.read_one(csvmod, lname, "disk_fault_write")
+
     def op_open_archive(self):
         n = len(self.archives) + 1
         aname = f"arc{n}"
@@ -817,7 +885,7 @@ class World:
 
 
 OPS = [("write", 10), ("overwrite", 4), ("read", 10), ("rewrite_from_read", 4),
-       ("rejected_write", 3),
+       ("rejected_write", 3), ("disk_fault_write", 3),
        ("open_archive", 3),
        ("reopen_archive", 3), ("chdir", 3), ("tick", 4), ("restart", 2),
        ("short_lived_archives", 2)]
@@ -868,6 +936,8 @@ def run(cs, log, ctx):
                     w.op_rewrite_from_read(csvmod)
                 elif kind == "rejected_write":
                     w.op_rejected_write(csvmod)
+                elif kind == "disk_fault_write":
+                    w.op_disk_fault_write(csvmod)
                 elif kind == "short_lived_archives":
                     w.op_short_lived_archives(csvmod)
                 elif kind == "open_archive":
